@@ -4,5 +4,7 @@ CONSTANTS
   StepUntil = 0
   TailFrom = 2932896
   MaxN = 0
+  LeapRule = "gregorian"
+  StartDay = 0
   NumLane = 1
 CHECK_DEADLOCK FALSE
